@@ -239,6 +239,9 @@ def npoint_nodes(case, P):
     elif pn == 'below-top':
         nodes = list(ordered)
         nodes[-1] = 10 ** (min(ls, lt) - 0.5)
+    elif pn == 'negative':       # an interior node at a negative pressure (only the two ends may be "unset" that way)
+        nodes = list(ordered)
+        nodes[0] = -nodes[0]
     else:
         raise ValueError(pn)
     return a_s, a_t, [float(v) for v in nodes], float(es), float(et)
@@ -257,6 +260,18 @@ def npoint_case(case):
     if case['tset'] == 'basic':
         for k in ('zagzig', 'dip', 'equal2500'):
             tsets.pop(k, None)
+    if case['pn'] == 'negative':
+        # not a pressure at all: rejected as an invalid model, whatever the temperatures
+        from taurex.data.profiles.temperature import NPoint as _NP
+        for tname, ts in sorted(tsets.items()):
+            w = case['windows'][0]
+
+            def make_neg():
+                return _NP(T_surface=ts[0], T_top=ts[-1], P_surface=a_s, P_top=a_t, temperature_points=list(ts[1:-1]),
+                           pressure_points=list(nodes), smoothing_window=w)
+            evaluate(r, 'npoint', '%dnodes/P=%s,negative-node/%s' % (npts, case['ps'], tclass(ts)), make_neg, N, P, pl,
+                     list(ts), 'reject', window=w, pnodes=pfull, tname=tname)
+        return r
     geom = ref.nodes_verdict(pfull, [1.0] * len(pfull), float('inf'))      # 'inverted' or 'valid'
     for tname, ts in sorted(tsets.items()):
         if geom == 'inverted':
@@ -648,7 +663,8 @@ def explore(ctx):
     for N, g in itertools.product(ns, grids):
         for npts in (0, 1, 2, 3):
             tset = 'all' if (thorough or npts <= 1) else 'basic'
-            pns = ['ordered'] if npts == 0 else ['ordered', 'clustered', 'on-layer', 'equal', 'inverted', 'below-top']
+            pns = ['ordered'] if npts == 0 else ['ordered', 'clustered', 'on-layer', 'equal', 'inverted', 'below-top',
+                                                  'negative']
             for pn, ps in itertools.product(pns, ['none', 'neg', 'outside', 'inside', 'swapped']):
                 slopes = ['default']
                 if pn in ('ordered', 'clustered') and ps in ('none', 'inside'):
